@@ -42,6 +42,9 @@ func runNetSuite(seed uint64, n int, out *Out, stats *Stats) {
 		if r.Chance(1, 3) {
 			hostPort = "10610"
 		}
+		if i%5 == 4 {
+			hostIp = "::1" // an IPv6 host: its target is written [::1]:port
+		}
 		host := net.JoinHostPort(hostIp, hostPort)
 		max := r.Pick(0, 1, 2, 3, 3, 5, 8)
 		// the universe of target strings
